@@ -76,6 +76,9 @@ var delays = []int{0, 0, 0, 1, 20}
 
 func drawRunConfig(ch Chooser, modes []process.Execution_Version, cancel bool) sim.Config {
 	c := sim.Config{CancelAt: -1}
+	if os.Getenv("VERIF_TIER") == "thorough" {
+		c.MaxSteps = 12000
+	}
 	c.Mode = modes[ch.Intn(len(modes))]
 	c.Monitor = ch.Intn(4) == 1
 	c.DelayMs = delays[ch.Intn(len(delays))]
@@ -99,6 +102,10 @@ var (
 func DrawSimCase(ch Chooser, prop string) *SimCase {
 	c := &SimCase{Prop: prop}
 	c.Opts.Collide = ch.Intn(2) == 1
+	if os.Getenv("VERIF_TIER") == "thorough" {
+		// swarm: the thorough tier mixes the usual sizes with larger programs
+		c.Opts.Scale = ch.Intn(2)
+	}
 	if prop == "C02" {
 		c.Opts.MainStructured = ch.Intn(2) == 1
 		// second profile: unconsumed roots may contain servers nobody calls; the oracle then
